@@ -15,4 +15,6 @@ for c in "$@"; do
   echo "== $id vs $c: rc=$rc"; grep -E "^\[check\]|^VIOLATION|^KNOWN-FINDING" work/seeded/$id.$c.out | cut -c1-220 | head -6
 done
 git -C /repo checkout -- .
+# translators regenerated model parts from the changed sources: back to what the unchanged tree says
+python3 lib/run_translators.py > /dev/null 2>&1
 git -C /repo status --porcelain | head -3
